@@ -3,28 +3,35 @@ import Driver.Kirkpatrick
 import Crem.Model.Runs
 /-!
 Oracle for suite `multi-run` (C08).  The runner model of `Crem/Model/Runs.lean` is executed with the
-concrete annealing worker (`annealCfg`) under a deterministic scheduler (`drive`); by
-`noninterference` / `fresh_start` / `failure_isolated` the per-run observations do not depend on
-the schedule, so any one schedule gives THE expectation for every interleaving the Go runtime
-produced.
+concrete annealing program (`annealCfg` over the private layout) under a deterministic scheduler
+(`drive`); by `noninterference` / `fresh_start_anneal` / `failure_isolated` the per-run observations
+do not depend on the schedule, so any one schedule gives THE expectation for every interleaving the
+Go runtime produced.
 
   reset <text>                 (harness bookkeeping)                                  -> ok
   probe <text>                 (a direct check evaluated on the Go side only)          -> done
-  walk <family> <tmplCell> <clone1Cell> <clone2Cell> <n> <path>|<class>|<allowed 0/1> …
-      what the reflection walk over two DeepClone()s of the configured annealer found: the
-      identities of the temperature cells reached by the template and by the two clones, and the
-      `n` top-most nodes reachable from BOTH clones, each with the harness's allow-list verdict
-      -> HYP ClonePrivate <true|false> cells-private=<0|1> shared-allowed=<0|1>
-         (`ClonePrivate` of the model, decided on the extracted addresses, and every shared node allow-listed)
+  walk <family> n=<number of shared nodes> R1=<ids> W1=<ids> R2=<ids> W2=<ids> L=<ids>
+      what the harness extracted from two DeepClone()s of the configured annealer that it prepared,
+      annealed and hashed: the nodes reachable from BOTH clones (or from a clone and the template) are
+      numbered 1..n; `Rk` = those clone k reaches, `Wk` = those whose content changed while clone k
+      annealed, `L` = those of a class whose every access is lock-guarded (ids comma separated, `-`
+      = none).  The driver evaluates the model's `Disjoint` on exactly these sets.  It does NOT
+      establish `Respects` (that the sets are what the code really reads and writes): that is what
+      the walk and the hashes sample.
+      -> HYP Disjoint <true|false> w1∩(r2∪w2)=<ids not locked> w2∩(r1∪w1)=<…> locked-read=<0|1>
+  walkx …  the same for a configuration KNOWN not to satisfy the hypothesis (CheckingLoopInvariant, finding
+      D28): the verdict is stated by both sides instead of being required   -> Disjoint=<0|1> w1∩… (as above)
   scenario <family> <name> <runs> <conc> <T0 bits> <a bits> <maxIter>
       -> returned=1 failed=[] then per run `[<id> T=<T0> iter=1 arch=<0|-> fin=1 Tend=<T0·a^maxIter>]`
          (what the property demands of every run: fresh start, one finish event, own result)
   seqshared <family> <name> <runs> <T0 bits> <a bits> <maxIter>
       the model with a SHARED coolant cell (the code as it was before the D4 repair), sequential runs
       -> the starting temperature of every run, `T0·a^((k-1)·maxIter)`
-  fault <family> <name> <runs> <conc> <designated> <at> <maxIter>
-      one designated run (1-based run number) panics in iteration `at`; isolate = true
-      -> returned=1 failed=[<id>] finished=[<ids of all other runs>]
+  fault <family> <name> <runs> <conc> <designated> <site> <at> <maxIter>
+      one designated run (1-based run number) panics at `site` ∈ clone | step | finish (for `step`:
+      in iteration `at`); isolate = true
+      -> returned=1 failed=[<id>] started=<number of runs that reported StartedAnnealing>
+         finished=[<ids that reported FinishedAnnealing>] saved=[<ids whose result was written>]
 -/
 namespace Driver.Runs
 open Crem.Runs
@@ -39,71 +46,98 @@ def cool (T a : Float) : Nat → Float
   | 0 => T
   | k + 1 => cool (T * a) a k
 
-def inputs (budget : Nat) (failRun : Option Nat) (failAt : Nat) : Inputs :=
-  { budget := budget, archiveAfter := fun _ k => k, failRun := failRun, failAt := failAt }
+def inputs (budget : Nat) (failRun : Option Nat) (site : Site) (failAt : Nat) : Inputs :=
+  { budget := budget, modelInit := fun i m _ => m + i + 1, archiveAfter := fun _ k _ _ => k,
+    modelAfter := fun _ _ m _ => m, encode := fun i m a d => i + m + a + d,
+    failRun := failRun, failSite := site, failAt := failAt, invObserver := false }
 
-def fuelFor (runs budget : Nat) : Nat := runs * (budget + 6) + 4
+/-- the heap `Run()` is entered with: pristine template, loadable data -/
+def heap0 : Heap Nat := { cell := fun a => if a = 4 then 1 else 0 }
 
-def finalState (cfg : Config Inputs RunPriv Coolant) (budget : Nat) : State RunPriv Coolant :=
-  (drive cfg (fuelFor cfg.runs budget) (init cfg (fun _ => ⟨0⟩)) []).1
+def fuelFor (runs budget : Nat) : Nat := runs * (budget + 8) + 4
+
+def finalState (cfg : Config Nat) (budget : Nat) : State Nat :=
+  (drive cfg (fuelFor cfg.runs budget) (init cfg heap0) []).1
 
 def idList (name : String) (runs : Nat) (p : Nat → Bool) : String :=
   "[" ++ ",".intercalate (((List.range runs).filter p).map (fun i => cloneId name (i + 1) runs)) ++ "]"
 
 def scenarioLine (family name : String) (runs conc : Nat) (T0 a : Float) (budget : Nat) : String :=
-  let cfg := annealCfg (inputs budget none 0) runs conc true true
+  let cfg := annealCfg (inputs budget none .step 0) runs conc true privLayout
   let s := finalState cfg budget
   let hdr := s!"returned={boolStr s.returned} failed={idList name runs (fun i => s.err i)}"
   let perRun := (List.range runs).map (fun i =>
     match s.obs i with
     | none => s!"[{cloneId name (i + 1) runs} not-started]"
-    | some (p, c) =>
-      let arch := if family.startsWith "Kirkpatrick" then "-" else toString p.archive
+    | some o =>
+      let arch := if family.startsWith "Kirkpatrick" then "-" else toString (o (privLayout.arch i))
       let fin := boolStr (s.phase i == .finished && !s.err i)
-      let tend := bitsStr (cool T0 a (s.cells (cfg.addr i)).coolings)
-      -- `iter` = the number carried by the run's first StartedIteration event; with a zero budget there is none
-      let it := if budget = 0 then "-" else toString p.iteration
-      s!"[{cloneId name (i + 1) runs} T={bitsStr (cool T0 a c.coolings)} iter={it} arch={arch} fin={fin} Tend={tend}]")
+      let tend := bitsStr (cool T0 a (s.heap (privLayout.cool i)))
+      -- `iter` = the number carried by the run's first StartedIteration event (counter at start + 1); with a
+      -- zero budget there is none
+      let it := if budget = 0 then "-" else toString (o (privLayout.iter i) + 1)
+      s!"[{cloneId name (i + 1) runs} T={bitsStr (cool T0 a (o (privLayout.cool i)))} iter={it} arch={arch} fin={fin} Tend={tend}]")
   " ".intercalate (hdr :: perRun)
 
+/-- the layout of the code before the D4 repair: every clone uses the template's coolant -/
+def coolShared : Layout := { privLayout with cool := fun _ => 0 }
+
 def seqSharedLine (runs : Nat) (T0 a : Float) (budget : Nat) : String :=
-  let cfg := annealCfg (inputs budget none 0) runs 1 true false
+  let cfg := annealCfg (inputs budget none .step 0) runs 1 true coolShared
   let s := finalState cfg budget
   " ".intercalate ((List.range runs).map (fun i =>
     match s.obs i with
     | none => "not-started"
-    | some (_, c) => bitsStr (cool T0 a c.coolings)))
+    | some o => bitsStr (cool T0 a (o (coolShared.cool i)))))
 
-def faultLine (name : String) (runs conc designated failAt budget : Nat) : String :=
-  let cfg := annealCfg (inputs budget (some (designated - 1)) failAt) runs conc true true
+def parseSite : String → Option Site
+  | "clone" => some .clone
+  | "step" => some .step
+  | "finish" => some .finish
+  | _ => none
+
+def faultLine (name : String) (runs conc designated : Nat) (site : Site) (failAt budget : Nat) : String :=
+  let cfg := annealCfg (inputs budget (some (designated - 1)) site failAt) runs conc true privLayout
   let s := finalState cfg budget
-  s!"returned={boolStr s.returned} failed={idList name runs (fun i => s.err i)} finished={idList name runs (fun i => (result cfg s i).isSome)}"
+  let started := ((List.range runs).filter (fun i => (s.obs i).isSome)).length
+  -- FinishedAnnealing is reported (to the first observer) by every run that completed its iterations
+  let finished := idList name runs (fun i => (s.obs i).isSome && decide (budget ≤ s.heap (privLayout.iter i)) &&
+    (!s.err i || (site == .finish && designated == i + 1)))
+  let saved := idList name runs (fun i => (result s i).isSome)
+  s!"returned={boolStr s.returned} failed={idList name runs (fun i => s.err i)} started={started} finished={finished} saved={saved}"
 
-/-- `ClonePrivate` decided on the addresses the walk extracted (template, clone 1, clone 2) -/
-def cellsPrivate (tmpl c1 c2 : Nat) : Bool :=
-  let cfg : Config Inputs RunPriv Coolant :=
-    { annealCfg (inputs 0 none 0) 2 1 true true with tmpl := tmpl, addr := fun i => if i = 0 then c1 else c2 }
-  decide (ClonePrivate cfg)
+/-! ### `Disjoint` on the sets the walk extracted -/
 
-def allAllowed : List String → Bool
-  | [] => true
-  | w :: ws =>
-    match (w.splitOn "|").getLast? with
-    | some "1" => allAllowed ws
-    | _ => false
+def parseIds (s : String) : Option (List Nat) :=
+  if s = "-" then some [] else (s.splitOn ",").mapM (·.toNat?)
+
+def idsStr (l : List Nat) : String :=
+  if l.isEmpty then "-" else ",".intercalate (l.map toString)
+
+def field (key : String) (w : String) : Option String :=
+  if w.startsWith (key ++ "=") then some (w.drop (key.length + 1)).toString else none
+
+def walkLine (hyp : Bool) (r1 w1 r2 w2 l : List Nat) : String :=
+  let ft : Footprint := { R := fun i => if i = 0 then r1 else r2, W := fun i => if i = 0 then w1 else w2, locked := l }
+  let d := decide (Disjoint 2 ft)
+  let bad12 := w1.filter (fun a => (r2.contains a || w2.contains a) && !l.contains a)
+  let bad21 := w2.filter (fun a => (r1.contains a || w1.contains a) && !l.contains a)
+  let lr := l.any (fun a => r1.contains a || r2.contains a)
+  let rest := s!"w1∩(r2∪w2)={idsStr bad12} w2∩(r1∪w1)={idsStr bad21} locked-read={boolStr lr}"
+  if hyp then s!"HYP Disjoint {if d then "true" else "false"} {rest}" else s!"Disjoint={boolStr d} {rest}"
+
+def walkCmd (hyp : Bool) (r1 w1 r2 w2 l : String) : String :=
+  match (field "R1" r1).bind parseIds, (field "W1" w1).bind parseIds, (field "R2" r2).bind parseIds,
+        (field "W2" w2).bind parseIds, (field "L" l).bind parseIds with
+  | some r1, some w1, some r2, some w2, some l => walkLine hyp r1 w1 r2 w2 l
+  | _, _, _, _, _ => "ERR parse"
 
 def step (_ : Unit) (line : String) : Unit × String :=
   match words line with
   | "reset" :: _ => ((), "ok")
   | "probe" :: _ => ((), "done")
-  | "walk" :: _family :: t :: c1 :: c2 :: n :: nodes =>
-    match t.toNat?, c1.toNat?, c2.toNat?, n.toNat? with
-    | some t, some c1, some c2, some n =>
-      if nodes.length ≠ n then ((), "ERR node count") else
-      let cp := cellsPrivate t c1 c2
-      let ok := allAllowed nodes
-      ((), s!"HYP ClonePrivate {if cp && ok then "true" else "false"} cells-private={boolStr cp} shared-allowed={boolStr ok}")
-    | _, _, _, _ => ((), "ERR parse")
+  | ["walk", _family, _n, r1, w1, r2, w2, l] => ((), walkCmd true r1 w1 r2 w2 l)
+  | ["walkx", _family, _n, r1, w1, r2, w2, l] => ((), walkCmd false r1 w1 r2 w2 l)
   | ["scenario", family, name, runs, conc, T0, a, budget] =>
     match runs.toNat?, conc.toNat?, parseBits T0, parseBits a, budget.toNat? with
     | some runs, some conc, some T0, some a, some budget => ((), scenarioLine family name runs conc T0 a budget)
@@ -112,10 +146,10 @@ def step (_ : Unit) (line : String) : Unit × String :=
     match runs.toNat?, parseBits T0, parseBits a, budget.toNat? with
     | some runs, some T0, some a, some budget => ((), seqSharedLine runs T0 a budget)
     | _, _, _, _ => ((), "ERR parse")
-  | ["fault", _family, name, runs, conc, d, fat, budget] =>
-    match runs.toNat?, conc.toNat?, d.toNat?, fat.toNat?, budget.toNat? with
-    | some runs, some conc, some d, some fat, some budget => ((), faultLine name runs conc d fat budget)
-    | _, _, _, _, _ => ((), "ERR parse")
+  | ["fault", _family, name, runs, conc, d, site, fat, budget] =>
+    match runs.toNat?, conc.toNat?, d.toNat?, parseSite site, fat.toNat?, budget.toNat? with
+    | some runs, some conc, some d, some site, some fat, some budget => ((), faultLine name runs conc d site fat budget)
+    | _, _, _, _, _, _ => ((), "ERR parse")
   | _ => ((), "ERR unknown line")
 
 end Driver.Runs
